@@ -350,6 +350,7 @@ class Engine:
         self.compared = 0
         self.closed_order = []
         self.last_failed = False
+        self.failed_keys: dict = {}  # ctx idx -> keys named by calls that were refused there
         self.pending_enter = None
 
     # -- real-side helpers
@@ -567,6 +568,8 @@ class Engine:
         )
         got = type(box.exc) if box.exc is not None else None
         self.last_failed = expect_exc is not None
+        if expect_exc is not None:
+            self.failed_keys.setdefault(op.ctx, set()).update((t, n_) for t in op.types for n_ in (op.name, name))
         if got is not expect_exc:
             if expect_exc is None and got not in (ResourceConflict, ValueError, TypeError, RuntimeError):
                 # the call is valid, the publication may even have happened, but announcing it blew up
@@ -600,6 +603,8 @@ class Engine:
         )
         got = type(box.exc) if box.exc is not None else None
         self.last_failed = expect_exc is not None
+        if expect_exc is not None:
+            self.failed_keys.setdefault(op.ctx, set()).update((t, n_) for t in op.types for n_ in (op.name, name))
         if got is not expect_exc:
             if expect_exc is None and got not in (ResourceConflict, ValueError, TypeError, RuntimeError):
                 diverge({"C03", "C18"}, f"fac:{op.variant}:publication-raised:{got.__name__}", f"{op.text()} -> {box.exc!r}")
@@ -659,10 +664,16 @@ class Engine:
                 mf.calls.append(op.ctx)
                 m.events.append((mf.types, mf.name, mf.description, False))
         else:
+            # a key that resolves although only a REFUSED call ever named it (here or in an ancestor): the refused call left something behind
+            cls_failed, c_ = set(), op.ctx
+            while c_ is not None:
+                if key in self.failed_keys.get(c_, ()):
+                    cls_failed = {"C03"}
+                c_ = self.model[c_].parent
             if new_calls:
-                diverge({"C02", "C04"}, f"lookup:foreign-factory-called:{op.api}", f"{where}: {new_calls}")
+                diverge({"C02", "C04"} | cls_failed, f"lookup:foreign-factory-called:{op.api}", f"{where}: {new_calls}")
             if not isinstance(box.exc, ResourceNotFound):
-                cls = {"C02"}
+                cls = {"C02"} | cls_failed
                 diverge(cls, f"lookup:invisible-key-resolved:{op.api}:{'value' if box.exc is None else type(box.exc).__name__}",
                         f"{where}: got {box.value!r} / {box.exc!r}, expected ResourceNotFound")
         # all lookup paths agree (non-generating now, or all refusing)
